@@ -878,9 +878,10 @@ Section JsonLimit.
                       (ev_ok find_at env) q (nsub_ev find_at env) Hm Ho evs 0 s Hok) as F.
     assert (forall fin s0, s_matches (js_stats (json_finish fin s0)) = s_matches (js_stats s0) /\
                            json_submatch_total (js_out (json_finish fin s0)) = json_submatch_total (js_out s0)) as Hfin.
-    { intros fin s0. unfold json_finish. destruct (negb (js_begin_printed s0)); [auto|].
-      cbn [js_stats js_out]. rewrite json_submatch_total_app, json_submatch_total_one. cbn [msg_subs].
-      destruct (Nat.ltb 0 (js_match_count s0)); cbn; split; lia. }
+    { intros fin s0. unfold json_finish. destruct (negb (js_begin_printed s0)); cbn [js_stats js_out].
+      - destruct (Nat.ltb 0 (js_match_count s0)); cbn; split; lia.
+      - rewrite json_submatch_total_app, json_submatch_total_one. cbn [msg_subs].
+        destruct (Nat.ltb 0 (js_match_count s0)); cbn; split; lia. }
     destruct (j_max cfg) as [[|L]|] eqn:Emax.
     - eexists. split; [reflexivity|]. destruct (Hfin (fins 0) (mkJS path 0 0 None false stats_new [] [])) as [-> ->].
       cbn. auto.
